@@ -124,8 +124,16 @@ def _exp(x):
         return float("inf")
 
 
+def unshift(fun):
+    """(model, shift) of a right-hand side: the model itself, or a wrapper that evaluates it at time + shift."""
+    if not hasattr(fun, "get_parameter_values") and hasattr(fun, "model") and hasattr(fun, "shift"):
+        return fun.model, fun.shift
+    return fun, 0.0
+
+
 def param_values_of(fun):
     """Parameter values in force: everything the model treats as a parameter at call time."""
+    fun, _ = unshift(fun)
     if hasattr(fun, "get_parameter_values"):
         cache = fun._cache if getattr(fun, "_cache", None) is not None else fun._create_cache()  # noqa: SLF001
         return {k: cache.all_parameter_values[k] for k in sorted(cache.all_parameter_values)}
@@ -172,7 +180,8 @@ class StubSPI:
             return r
         r.success = True
         r.t = t_eval
-        cols = [self.fm.flow(pvals, y0, t0, t, self.symbolic) for t in t_eval]
+        _, shift = unshift(fun)  # the integrator's clock may start at zero again; the flow is that of the model in absolute time
+        cols = [self.fm.flow(pvals, y0, t0 + shift, t + shift, self.symbolic) for t in t_eval]
         r.y = [[c[j] for c in cols] for j in range(len(y0))]
         return r
 
@@ -211,7 +220,7 @@ class _Ode:
         try:
             for c in rhs.__closure__ or ():
                 obj = c.cell_contents
-                if hasattr(obj, "rhs") and hasattr(obj.rhs, "get_parameter_values"):
+                if hasattr(obj, "rhs") and hasattr(unshift(obj.rhs)[0], "get_parameter_values"):
                     pvals = param_values_of(obj.rhs)
         except Exception:  # noqa: BLE001
             pass
